@@ -668,3 +668,20 @@ Qed.
 
 Lemma method_code_inj : forall a b, method_code a = method_code b -> a = b.
 Proof. intros a b H. rewrite <- (method_of_code_code a), <- (method_of_code_code b), H. reflexivity. Qed.
+
+(* ---- sessions: several initializes of one server --------------------------------------------- *)
+(* the k-th initialize result and workspace hand-over depend on the k-th inputs only *)
+Theorem session_independent : forall cs1 cs2 c k d,
+  nth_error cs1 k = Some c -> nth_error cs2 k = Some c ->
+  nth k (session cs1) d = lsp_initialize c /\ nth k (session cs2) d = lsp_initialize c.
+Proof.
+  intros cs1 cs2 c k d H1 H2. unfold session.
+  split; apply nth_error_nth; rewrite nth_error_map; [rewrite H1|rewrite H2]; reflexivity.
+Qed.
+
+Theorem session_workspace : forall cs r, In r (session cs) ->
+  workspace_encoding r = observe (server_capabilities r) FPositionEncoding.
+Proof.
+  intros cs r H. unfold session in H. apply in_map_iff in H. destruct H as (c & <- & _).
+  apply workspace_uses_advertised.
+Qed.
